@@ -284,9 +284,9 @@ def fragments_from(tree, rng):
 
 
 HOSTILE = {
-    'expr': ["'é';", "f('ü', 'ö');", 'ä;', ')+(', 'a),(b', 'a) if (b', 'a, b', 'a,\nb', '*a', '*a,', 'a:b', 'x for x in y', '', '#c', 'a;', 'a\nb', 'yield', 'a := b', '(a', 'a)', 'a # c\n', '\\\na', ' a', 'a if b', '*not a', 'lambda: a, b'],
+    'expr': ['a,\n"é"', '"é",\n"ü", "ö"', 'a,\n"é",', '"ключ",\n  ñ', 'a,\nü.é', "'é';", "f('ü', 'ö');", 'ä;', ')+(', 'a),(b', 'a) if (b', 'a, b', 'a,\nb', '*a', '*a,', 'a:b', 'x for x in y', '', '#c', 'a;', 'a\nb', 'yield', 'a := b', '(a', 'a)', 'a # c\n', '\\\na', ' a', 'a if b', '*not a', 'lambda: a, b'],
     'expr_slice': ['a:b', 'a:b:c, d', '*a', '*not a', '][', 'a][b', ':', '::', 'a,', '', 'x for x in y', 'a:b]=[c'],
-    'expr_all': ['*a\n ,', '*ab\n  ,', '*a  # c\n ,', '*é\n  ,', '*a,', '*a\n,', '*a', 'a:b', 'a:b:c, d', 'a, b', 'a,\nb', '*a, *b', '*a\n, b', 'x for x in y', '', 'a := b', 'yield', '*not a', '*a\n  ,  # c',
+    'expr_all': ['a,\n"é"', '*ü,\n"é"', '*a\n ,', '*ab\n  ,', '*a  # c\n ,', '*é\n  ,', '*a,', '*a\n,', '*a', 'a:b', 'a:b:c, d', 'a, b', 'a,\nb', '*a, *b', '*a\n, b', 'x for x in y', '', 'a := b', 'yield', '*not a', '*a\n  ,  # c',
                  '*(a)\n ,', '*a \\\n ,', ')+(', 'a][b', 'a)(b', ':', '*a:b'],
     'expr_arglike': ['*a', '*not a', 'a, b', 'a=b', '**a', 'x for x in y', ')(', 'a)(b', '', 'a:b'],
     '_arglikes': ['x=1,\n*b', '  a,\nb, c=1', '        k=1,\n    *s,\n**kw', 'a, b', 'a, *b, k=1, **d', '', 'a)(b', 'a for x in y', '(a for x in y), b', 'k=1, *a', 'a,', '*a, b=c, *d', 'a=1, b', 'a,\n      k=v,\n  *c,\nj=w',
@@ -295,7 +295,7 @@ HOSTILE = {
     'keyword': ['a=1', 'a=1, b=2', '**k', 'a', 'a=1)(b=2', 'a=1), _(b=2', '', 'a=(yield)', 'a = 1,', 'a=1 # c', '*a', 'a==1', 'a=x for x in y'],
     'arguments': [')->(', 'a)->(b', 'a, b=1, /, c, *, d, **e', '', '*', 'a=', 'a: int=3', '*a: *b', '): pass\ndef g(', 'a,', '/', 'self, /,', '**k,'],
     'arguments_lambda': [': lambda', 'a: b', 'a, *b, c=1, **d', '', 'a=1: None)+(lambda', 'a,', '*'],
-    'arg': ['a', 'a: int', 'a=1', 'a, b', '*a', 'a: *b', '', 'a)->(b', 'a: (x := 1)'],
+    'arg': ['a: *b, **c', 'a: *b, c', 'a: *b, *, c', 'a: *b = 1', 'a: *b, /', 'a: *b,', 'a', 'a: int', 'a=1', 'a, b', '*a', 'a: *b', '', 'a)->(b', 'a: (x := 1)'],
     'Import_name': ['a', 'a.b as c', '*', 'a, b', 'a as b, c', '', 'a;b', 'a.b.c', '(a)', 'a as'],
     'ImportFrom_name': ['a', 'a as b', '*', 'a.b', 'a, b', '', '(a)', 'a)\nfrom . import (b'],
     '_Import_names': ['a, b.c as d', 'a,', '', '*', 'a;import b'],
@@ -305,7 +305,7 @@ HOSTILE = {
     'ExceptHandler': ['except: pass', 'except E as e:\n    pass', 'except* E: pass', 'except: pass\nexcept: pass', 'except: pass\nelse: pass', 'finally: pass', '', 'except (A, B): pass',
                       ' except: pass', 'except: pass\nfinally: pass\ntry: pass'],
     '_ExceptHandlers': ['except A: pass\nexcept B: pass', '', 'except: pass\nelse: pass', 'except* A: pass\nexcept* B: pass', 'except A: pass\nexcept* B: pass'],
-    'pattern': ['a', '1', 'a | b', '[a, *b]', 'a, b', '*a', '{1: a, **r}', 'C(x, y=1)', 'a as b', '(a)', '', 'a) if (b', 'a): pass\n case (b', 'a if b', '1 + 2j', '-1', 'a.b', '_', '[a]if[b]', 'x]if['],
+    'pattern': ['a,\n"é"', '"é",\n*ü', 'ñ,\n"é",', '"é" |\n"ü"', 'a', '1', 'a | b', '[a, *b]', 'a, b', '*a', '{1: a, **r}', 'C(x, y=1)', 'a as b', '(a)', '', 'a) if (b', 'a): pass\n case (b', 'a if b', '1 + 2j', '-1', 'a.b', '_', '[a]if[b]', 'x]if['],
     'comprehension': ['(x) for a in b', '+ 1 for a in b', '.y for a in b', '[0] for a in b', 'if z else w for a in b', ', q for a in b', 'for a in b', 'for a in b if c', 'async for a in b', 'for a in b for c in d', 'if a', '', 'for a in b]+[c', 'for a, b in c if d if e', 'for a in b,'],
     '_comprehensions': ['.y for a in b', '(x) for a in b', '+ 1 for a in b', '[0] for a in b', 'or z for a in b', 'if q else r for a in b', 'for a in b for c in d', '', 'if x for a in b', 'for a in b] + [c for d in e'],
     '_comprehension_ifs': ['.y if a', '(x) if a', '+ 1 if a', 'or z if a', 'if a if b', '', 'for a in b', 'if a for b in c', 'if a] + [b'],
@@ -316,6 +316,7 @@ HOSTILE = {
 }
 # text that closes the wrapper of the mode, goes on as the BODY / rest of the wrapping construct on further (indented) lines and opens what the wrapper's tail then closes
 ESCAPES = {
+    '_more_hostile': [],
     'arguments': ['a):\n  def g(b', 'a):\n  x = (b', 'a) -> c:\n  def g(b', '):\n  def g(b', 'a=(1)):\n  def g(b=(2)'],
     'arg': ['a):\n  def g(b', 'a: int):\n  def g(b', 'a):\n  x = (b'],
     'arguments_lambda': ['a: 0\nlambda b', 'a: (0)\n(lambda b'],
@@ -503,6 +504,19 @@ def check_fragment(ctx, mode, src, origin):
         xs = shifted(x, k)
         skip_root = isinstance(x, (ast.Tuple, ast.MatchSequence)) and mode in ('expr', 'pattern', 'expr_slice', 'expr_arglike', 'expr_all') and x.lineno <= k
         if skip_root:
+            # the embedding parenthesizes an unparenthesized sequence, so its own span is not the reference's: it must run from its first element to (at least) the end of
+            # its last one and not beyond the last code character of the source
+            kids = list(getattr(g, 'elts', None) or getattr(g, 'patterns', None) or [])
+            if kids:
+                first, last = kids[0], kids[-1]
+                srcb = [l.encode() for l in src.split('\n')]
+                code_end = max(((i + 1, len(l.split(b'#')[0].rstrip())) for i, l in enumerate(srcb) if l.split(b'#')[0].strip()), default=(1, 0))
+                if (g.lineno, g.col_offset) != (first.lineno, first.col_offset) or (g.end_lineno, g.end_col_offset) < (last.end_lineno, last.end_col_offset) or \
+                        ((g.end_lineno, g.end_col_offset) > code_end and "'" not in src and '"' not in src):
+                    ctx.violation(f'tree|{mode}|unparenthesized-sequence-span', 'an unparenthesized sequence does not span from its first element to the end of its last one',
+                                  {**rec, 'span': [g.lineno, g.col_offset, g.end_lineno, g.end_col_offset], 'first_element_start': [first.lineno, first.col_offset],
+                                   'last_element_end': [last.end_lineno, last.end_col_offset]})
+                    return
             for p in ('lineno', 'col_offset', 'end_lineno', 'end_col_offset'):
                 setattr(xs, p, getattr(g, p, None))
         d = cmp_ast(g, xs, positions=True)
